@@ -600,6 +600,14 @@ def _ensemble_case(draw, dmax=6, nmax=6):
     c = {"d": d, "real": real, "states": states, "seed": draw(gen.SEED), "priors": pk, "parray": draw(st.booleans())}
     if pk == "dyadic":
         c["counts"] = draw(gen.dyadic_probs(n, m=6, allow_zero=False))
+        if n >= 3 and draw(st.integers(0, 2)) == 0:
+            # "arbitrary priors" include a state of prior exactly zero (the ensemble average must still be invertible:
+            # cases where it is not are inconclusive).  Seeded change C19-u4 - pretty-bad-measurement prefactor computed
+            # from the number of non-zero priors - was missed while every prior was >= 1/64.
+            z = draw(st.integers(0, n - 1))
+            t = (z + 1 + draw(st.integers(0, n - 2))) % n
+            c["counts"][t] += c["counts"][z]
+            c["counts"][z] = 0
     elif pk == "prng":
         c["pseed"] = draw(gen.SEED)
     return c
